@@ -385,9 +385,15 @@ def judge(ctx, dev, op, out, trace, state, deleted_before=0):
                 return
             # the delete carried the reservation of the completed read
             res_used = int(st['deleted'][0][1])
-            last_reserve = max(i for i, t in enumerate(trace) if t[0] == 0x42)
-            rsp = trace[last_reserve][2]
-            handed = rsp[1] | rsp[2] << 8 if len(rsp) == 3 else None
+            reserves = [i for i, t in enumerate(trace) if t[0] == 0x42]
+            if reserves:
+                last_reserve = reserves[-1]
+                rsp = trace[last_reserve][2]
+                handed = rsp[1] | rsp[2] << 8 if len(rsp) == 3 else None
+            else:
+                # (a history: no Reserve SEL in THIS call - read and delete went out under a reservation of an
+                # earlier call that the device still honoured; judged like the rest: one reservation for both)
+                last_reserve, handed = -1, res_used
             tail = trace[last_reserve + 1:]
             gets = [t for t in tail if t[0] == 0x43]
             dels = [t for t in tail if t[0] == 0x46]
@@ -398,7 +404,7 @@ def judge(ctx, dev, op, out, trace, state, deleted_before=0):
                 ctx.violate('C12:get_and_clear_sel_entry:reservation',
                             'the delete was not issued under the reservation under which the record was read', case,
                             expected='reserve -> complete read -> delete, all under one reservation',
-                            observed=dev10.show_trace(trace[last_reserve:])[:300])
+                            observed=dev10.show_trace(trace[max(last_reserve, 0):])[:300])
                 return
         else:
             if st['deleted']:
